@@ -5,6 +5,7 @@ import (
 	"fmt"
 	"net/http"
 	"reflect"
+	"sort"
 	"strings"
 	"sync"
 
@@ -304,7 +305,10 @@ func (r *Router) Resource(basePath string, controller any, middles ...HandlerFun
 	basePath += resName
 
 	r.Group(basePath, func() {
-		for name, methods := range RESTFulActions {
+		// in table order, not in (random) map order: with a variable in the base path every
+		// route is dynamic, and "create" must be tried before "{id}"
+		for _, name := range restActionNames() {
+			methods := RESTFulActions[name]
 			m := cv.MethodByName(name)
 			if !m.IsValid() {
 				continue
@@ -333,6 +337,27 @@ func (r *Router) Resource(basePath string, controller any, middles ...HandlerFun
 			}
 		}
 	}, middles...)
+}
+
+// restActionNames returns the keys of RESTFulActions: the standard actions in table order, then any others sorted
+func restActionNames() []string {
+	names := make([]string, 0, len(RESTFulActions))
+	std := map[string]bool{}
+	for _, name := range []string{IndexAction, CreateAction, StoreAction, ShowAction, EditAction, UpdateAction, DeleteAction} {
+		std[name] = true
+		if _, ok := RESTFulActions[name]; ok {
+			names = append(names, name)
+		}
+	}
+
+	n := len(names)
+	for name := range RESTFulActions {
+		if !std[name] {
+			names = append(names, name)
+		}
+	}
+	sort.Strings(names[n:])
+	return names
 }
 
 // NotFound handlers for router
